@@ -321,6 +321,25 @@ def val_compose(ctx: Ctx) -> RuleResult:
         r.violate("BaseDAG.compose: a needed DAG input that is not provided is not refused", amd.loc(), "ValueError expected", None)
     okdi = len(di) == 1 and "not in self.results" in norm_src(di[0].value)
     r.ob(okdi, {"inputs without default": norm_src(di[0].value) if di else None})
+    # what the walk collected stays collected: nothing is taken out of the set afterwards (an ancestor of a supplied input can
+    # also feed an output through another path - a shared setup node, a constant)
+    coll = set()
+    for c in iter_own_nodes(f.node):
+        if isinstance(c, ast.Call) and dotted(c.func) == amd.name and len(c.args) >= 2 and isinstance(c.args[1], ast.Name):
+            coll.add(c.args[1].id)
+    for g_ in (f, amd):
+        for n in iter_own_nodes(g_.node):
+            shr = None
+            if isinstance(n, ast.AugAssign) and isinstance(n.op, (ast.Sub, ast.BitAnd)) and dotted(n.target) in coll:
+                shr = n
+            elif isinstance(n, ast.Call) and isinstance(n.func, ast.Attribute) and n.func.attr in ("difference_update", "intersection_update", "discard", "remove", "pop", "clear") \
+                    and dotted(n.func.value) in coll:
+                shr = n
+            if shr is not None:
+                r.ob(False, {"collected nodes removed again": norm_src(shr)})
+                r.violate(f"BaseDAG.compose: nodes collected for the outputs are taken out again ({norm_src(shr)[:60]})", g_.loc(shr),
+                          "a node upstream of a supplied input can be needed by an output through another path (a shared setup node feeding "
+                          "both the input and the output): without it the composed DAG raises KeyError", norm_src(shr))
     # the walk goes on from EVERY node it collects (work list or recursion): the dependencies of a node whose value is already
     # known (a setup result) are nodes of the composed DAG too - its references name them
     adds = [n for n in iter_own_nodes(amd.node) if isinstance(n, ast.Expr) and isinstance(n.value, ast.Call) and isinstance(n.value.func, ast.Attribute)
@@ -429,6 +448,32 @@ def val_compose_anc(ctx: Ctx) -> RuleResult:
                   "returns inconsistent outputs", src)
     elif not closure:
         raise Undecided("compose: ancestor set definition not recognised: " + src)
+    return r
+
+
+def val_emptyfold(ctx: Ctx) -> RuleResult:
+    """Folds over a possibly empty collection have an identity: `set.union(*xs)` / `reduce(f, xs)` raise TypeError on an empty xs -
+    `exclude_nodes=[]` (exclude nothing) or `root_nodes=[]` then fails instead of selecting what the documentation says."""
+    r = RuleResult("VAL-EMPTYFOLD")
+    n_ok = 0
+    for f in pkg_funcs(ctx):
+        for n in iter_own_nodes(f.node):
+            if not isinstance(n, ast.Call):
+                continue
+            d = dotted(n.func) or ""
+            bad = None
+            if d in ("set.union", "set.intersection", "frozenset.union", "frozenset.intersection") and len(n.args) == 1 and isinstance(n.args[0], ast.Starred):
+                bad = f"{d}(*...) without a first operand"
+            elif d.split(".")[-1] == "reduce" and len(n.args) == 2 and not n.keywords:
+                bad = "reduce(f, xs) without an initial value"
+            elif d.split(".")[-1] == "reduce" and len(n.args) == 3:
+                n_ok += 1
+            if bad:
+                r.ob(False, {"in": f.short, "fold": norm_src(n)[:100]})
+                r.violate(f"{f.short}: {bad}", f.loc(n),
+                          "with an empty collection the call raises TypeError: an empty selection list (exclude_nodes=[] excludes nothing, "
+                          "root_nodes=[] selects nothing) makes the executor or setup() fail", norm_src(n)[:120])
+    r.ob(True, {"folds with an identity seen": n_ok})
     return r
 
 
@@ -754,7 +799,7 @@ def val_confatomic(ctx: Ctx) -> RuleResult:
 
 
 RULES = {
-    "VAL-CONFKEYS": val_confkeys, "VAL-POSTINIT": val_postinit, "VAL-CONFATOMIC": val_confatomic,
+    "VAL-CONFKEYS": val_confkeys, "VAL-EMPTYFOLD": val_emptyfold, "VAL-POSTINIT": val_postinit, "VAL-CONFATOMIC": val_confatomic,
     "VAL-COMPOSE-OVERLAP": val_compose_overlap,
     "VAL-SYNTHSEQ": val_synthseq,
     "VAL-MAXC": val_maxc, "VAL-DEBUGDEP": val_debugdep, "VAL-SETUPDEP": val_setupdep, "VAL-SETUPARG": val_setuparg,
